@@ -32,7 +32,9 @@ Inductive cpend :=
 (** the worker inside a Delete command: acknowledgement, key id and expiry of the removed entry *)
 Inductive wdpend :=
 | WDStore (a id : Z) (exp : option Z)         (* store entry removed, weight still charged *)
-| WDWeight (a id : Z) (exp : option Z).       (* weight released, expiry index entry still there *)
+| WDWeight (a id : Z) (exp : option Z)        (* weight released, expiry index entry still there *)
+| WPAdmitted (a k v id : Z) (ttl : option Z) (obs : list Z).
+                                              (* inside a put: admitted and charged, the entry not yet inserted *)
 
 Record mstate := { win : wstate; cps : list (Z * cpend); wdel : option wdpend }.
 
@@ -179,12 +181,28 @@ Definition mstepc (cfg : config) (ms : mstate) (tid : Z) (idxs : list Z) : mstat
   | Some (PShut n) => shutdown_stage cfg ms tid n
   end.
 
-(** the worker: a Delete command is split in three, everything else is Window.v's worker *)
+(** the worker's put up to the schedule point `worker.put.after_admission`: presence re-check and admission *)
+Definition mput1 (cfg : config) (ms : mstate) (orc : worker_oracle) (k v id h w : Z) (ttl : option Z) (a : Z)
+                 (q : list (cmd * Z)) : mstate * list Z :=
+  let s0 := set_queue (mbase ms) q in
+  if amem k (store s0) then (with_mbase ms (set_ack a (Rejected KeyAlreadyExists) s0), [5; 5]) else
+  match admission cfg orc k id h w s0 with
+  | (AdStatus Accepted, s1, vs) =>
+      ({| win := with_base (win ms) s1; cps := cps ms; wdel := Some (WPAdmitted a k v id ttl (5 :: 1 :: map sk_id vs)) |}, [9])
+  | (AdStatus x, s1, vs) => (with_mbase ms (set_ack a x (upd_st add_keys_rejected 1 s1)), 5 :: status_code x :: map sk_id vs)
+  | (AdPanic site, s1, _) => (with_mbase ms (set_worker s1 Dead), [4; site])
+  | (AdInadmissible why, _, _) => (ms, [7; why])
+  end.
+
+(** the worker: puts are split at `worker.put.after_admission` (and, with a time-to-live, again at Window.v's point
+    behind the store insert), a Delete command is split in three, everything else is Window.v's worker *)
 Definition mworker1 (cfg : config) (ms : mstate) (orc : worker_oracle) : mstate * list Z :=
   let s := mbase ms in
   match wdel ms, wpending (win ms) with
   | None, None =>
       match worker s, queue s with
+      | Alive, (CPut k v id h w, a) :: q => mput1 cfg ms orc k v id h w None a q
+      | Alive, (CPutTTL k v id h w ttl, a) :: q => mput1 cfg ms orc k v id h w (Some ttl) a q
       | Alive, (CDelete k, a) :: q =>
           let s0 := set_queue s q in
           match alookup k (store s0) with
@@ -209,6 +227,18 @@ Definition mworker2 (cfg : config) (ms : mstate) : mstate * list Z :=
   | Some (WDWeight a id exp) =>
       let s3 := match exp with Some x => set_ticker s (ticker_delete cfg id x (ticker s)) | None => s end in
       ({| win := with_base (win ms) (set_ack a Accepted s3); cps := cps ms; wdel := None |}, [5; 1])
+  | Some (WPAdmitted a k v id ttl obs) =>
+      match ttl with
+      | None => ({| win := with_base (win ms) (set_ack a Accepted (store_insert k v id None s)); cps := cps ms; wdel := None |}, obs)
+      | Some t =>
+          match calc_expiry (now s) t with
+          | None => ({| win := with_base (win ms) (set_worker s Dead); cps := cps ms; wdel := None |}, [4; site_expiry_overflow])
+          | Some e =>
+              ({| win := {| base := store_insert k v id (Some e) s; ups := ups (win ms);
+                            wpending := Some {| p_ack := a; p_id := id; p_exp := e; p_obs := obs |} |};
+                  cps := cps ms; wdel := None |}, [9])
+          end
+      end
   | None => let '(w', ret) := wstep cfg (win ms) WPut2 in ({| win := w'; cps := cps ms; wdel := wdel ms |}, ret)
   end.
 
